@@ -22,43 +22,49 @@ namespace Term
 
 abbrev Str := List Char
 
-/-- the grid and the cursor; `cc = w` means "wrap pending" -/
+/-- the grid and the cursor, as a zipper around the cursor's row: the rows above it (nearest
+first), the row itself, the rows below.  `cc = w` means "wrap pending". -/
 structure Screen where
   w : Nat
-  h : Nat
-  rows : List Str
-  cr : Nat
+  aboveRev : List Str
+  cur : Str
+  below : List Str
   cc : Nat
-deriving Repr, Inhabited
+deriving Repr, Inhabited, DecidableEq
 
 def blankRow (w : Nat) : Str := List.replicate w ' '
 
+/-- all rows, top to bottom -/
+def Screen.rows (s : Screen) : List Str := s.aboveRev.reverse ++ s.cur :: s.below
+
+/-- the cursor's row index -/
+def Screen.cr (s : Screen) : Nat := s.aboveRev.length
+
+/-- a blank `w × h` screen (`h ≥ 1`), cursor at the top left -/
 def Screen.blank (w h : Nat) : Screen :=
-  { w := w, h := h, rows := List.replicate h (blankRow w), cr := 0, cc := 0 }
+  { w := w, aboveRev := [], cur := blankRow w, below := List.replicate (h - 1) (blankRow w), cc := 0 }
 
 /-- line feed: down one row, scrolling the grid up when on the last row -/
 def lineFeed (s : Screen) : Screen :=
-  if s.cr + 1 < s.h then { s with cr := s.cr + 1 }
-  else { s with rows := s.rows.drop 1 ++ [blankRow s.w] }
+  match s.below with
+  | b :: bs => { s with aboveRev := s.cur :: s.aboveRev, cur := b, below := bs }
+  | [] => { s with aboveRev := (s.cur :: s.aboveRev).dropLast, cur := blankRow s.w }
 
 def carriageReturn (s : Screen) : Screen := { s with cc := 0 }
-
-/-- write `c` into row `r` at column `k` -/
-def setCell (rows : List Str) (r k : Nat) (c : Char) : List Str :=
-  rows.modify r (fun row => row.set k c)
 
 /-- a printable character -/
 def putChar (s : Screen) (c : Char) : Screen :=
   let s := if s.cc ≥ s.w then { lineFeed s with cc := 0 } else s
-  { s with rows := setCell s.rows s.cr s.cc c, cc := s.cc + 1 }
+  { s with cur := s.cur.set s.cc c, cc := s.cc + 1 }
 
 /-- `ESC[2K` -/
-def eraseLine (s : Screen) : Screen :=
-  { s with rows := s.rows.modify s.cr (fun _ => blankRow s.w) }
+def eraseLine (s : Screen) : Screen := { s with cur := blankRow s.w }
 
 /-- `ESC[1A` (stops at the top row; clears a pending wrap) -/
 def cursorUp (s : Screen) : Screen :=
-  { s with cr := s.cr - 1, cc := min s.cc (s.w - 1) }
+  match s.aboveRev with
+  | a :: rest => { s with aboveRev := rest, cur := a, below := s.cur :: s.below, cc := min s.cc (s.w - 1) }
+  | [] => { s with cc := min s.cc (s.w - 1) }
 
 def isPrintable (c : Char) : Bool := c.toNat ≥ 32 && c.toNat ≠ 127
 
@@ -130,11 +136,21 @@ def ttyBytes : RState → List Str → Str
   | _, [] => []
   | st, f :: fs => (renderTty st f).1 ++ ttyBytes (renderTty st f).2 fs
 
-/-- the writes when stdout is not a terminal: intermediate tables are never printed, the final one
-once (`if last_row { write!(…) }`) -/
-def nonTtyWrites (intermediate : List Str) (final : Str) : List Str :=
-  let _ := intermediate
-  [final]
+/-- `Renderer::render` on an aggregate row (src/render.rs:88-110): the `write!` calls it makes and
+the new state.  `shouldPrint` is the value of `self.should_print()`. -/
+def renderStep (isTty : Bool) (st : RState) (shouldPrint lastRow : Bool) (frame : Str) : List Str × RState :=
+  if !isTty then
+    if lastRow then ([frame], st) else ([], st)
+  else if shouldPrint || lastRow then
+    ([(renderTty st frame).1], (renderTty st frame).2)
+  else ([], st)
+
+/-- a whole run of `render_aggregate`: the intermediate tables with the `should_print()` value at
+each of them, then the final table (`last_row = true`); the list of writes -/
+def renderRun (isTty : Bool) : RState → List (Bool × Str) → Str → List Str
+  | st, [], final => (renderStep isTty st false true final).1
+  | st, (sp, f) :: rest, final =>
+    (renderStep isTty st sp false f).1 ++ renderRun isTty (renderStep isTty st sp false f).2 rest final
 
 /-- the screen after the frames have been written to a terminal that was blank with the cursor
 at the top left -/
@@ -146,6 +162,11 @@ def padRow (w : Nat) (l : Str) : Str := l ++ List.replicate (w - l.length) ' '
 
 def expectedRows (w h : Nat) (lines : List Str) : List Str :=
   lines.map (padRow w) ++ List.replicate (h - lines.length) (blankRow w)
+
+/-- a screen whose cursor is at the start of row `r`, with blank rows from there on (what a
+shell leaves before the program starts): `above` is whatever is on the rows above, top first -/
+def Screen.startAt (w : Nat) (above : List Str) (roomBelow : Nat) : Screen :=
+  { w := w, aboveRev := above.reverse, cur := blankRow w, below := List.replicate roomBelow (blankRow w), cc := 0 }
 
 /-! ### the live loop: downstream operators are re-run on their old state for every frame -/
 
